@@ -148,6 +148,9 @@ def bot_source(desc, pkg):
                 out.append(f'        return self._cache_{meth}')
             else:
                 out.append('        return [' + ', '.join(exprs) + ']')
+        if a.get('where'):
+            # an explicit placement wish (dawgie.Distribution.cloud / cluster); absent = auto (the default where())
+            out += ['    def where(self):', f'        return dawgie.Distribution.{a["where"]}']
         out += [
             f'    {runsig}',
             f'        return vlib.engine.run_hook(self, {pkg["name"]!r}, locals())',
